@@ -154,7 +154,15 @@ func runOne(st Stim) Trace {
 				if st.Big {
 					body = append(body, bytes.Repeat([]byte{'.'}, 40-len(body))...)
 				}
-				_ = rw.SetResponse(codes.Content, message.TextPlain, bytes.NewReader(body),
+				// (the reply's class does not matter for de-duplication: request 3 is refused with 4.04, request 4 fails with 5.03)
+				code := codes.Content
+				switch info.q {
+				case 3:
+					code = codes.NotFound
+				case 4:
+					code = codes.ServiceUnavailable
+				}
+				_ = rw.SetResponse(code, message.TextPlain, bytes.NewReader(body),
 					message.Option{ID: message.MaxAge, Value: []byte{byte(info.q)}})
 			}
 			if st.Hijack { // what the application does with the message it was handed must not matter for de-duplication
